@@ -61,11 +61,11 @@ def main():
                 ran.append("existing suite with change (%s): rc=%d %s" % (quick, rc2, ";".join(fails)[:300]))
                 rc3 = 0
                 if slow:
-                    for attempt in range(6):
+                    for attempt in range(14):
                         rc3, out3 = sh(slow, os.path.join(d, mod))
                         if rc3 == 0 or ("connection refused" not in out3 and "address already in use" not in out3):
                             break
-                        time.sleep(3)
+                        time.sleep(10)
                     ran.append("%s with change: rc=%d (attempts %d)" % (slow, rc3, attempt + 1))
                 ok = ok and rc0 == 0 and rc1 != 0 and rc2 == 0 and rc3 == 0
         finally:
